@@ -596,10 +596,6 @@ def run_history(task):
                          "css_parser.log level/handlers"]
                 step["settings_changed"] = [n for n, a, b in zip(names, before, after) if a != b]
         out["steps"].append(step)
-    if task.get("reset_memo"):
-        # diagnosis only: is a canary difference caused by the serializer's selector memo alone?
-        del env.cp.ser._selectors[:]
-        env.cp.ser._selectorlevel = 0
     if not task.get("no_canaries"):
         order = list(range(len(CANARIES)))
         if lead is not None:
@@ -1041,10 +1037,6 @@ def oracle(hist, res, ref, lead=None):
     if diff:
         k = diff[0]
         kinds = "other"
-        if indent:
-            again = isolated_map([{"hist": hist, "reset_memo": True}])[0]
-            if again["canaries"] == ref["canaries"]:
-                kinds = "only-through-selector-memo"
         if lead in diff:
             k = lead
         out.append(("canary results differ from a pristine interpreter that performed only the caller's settings: "
@@ -1277,7 +1269,8 @@ def run(ctx):
                 "another parser or the module functions, depth <= 2; both flag values) "
                 "(%d, exhaustive-small part) + %d random histories of 1..%d calls (1 in 5 may switch indentSpecificities, "
                 "1 in 3 use callbacks); "
-                "each followed by %d canary operations compared with a pristine fork that performed only the caller's "
+                "each followed by %d canary operations (8 of them on long-lived objects created before the history; a history may name "
+                "one canary to be evaluated first) compared with a pristine fork that performed only the caller's "
                 "settings; non-trivial = histories in which some call raised or handed a token to the stash/push-back list"
                 % (n_corpus, n_exh, nrand, 8 if thorough else 6, len(CANARIES)),
         "op_counts": op_counts, "exception_counts": exc_counts, "traced_event_counts": events_seen,
@@ -1309,7 +1302,9 @@ TRUSTED = [
     "the event semantics of Globals.v (ProdParser(), savedTokens pop/append, tokenizer push/drain, serializer reads) is a "
     "hand transcription; it is compared with the implementation on every traced call (cells after the call), including "
     "that no call touches the stash before constructing a ProdParser",
-    "bodies of the entry points are not modelled: they are universally quantified strategies over the primitive events",
+    "bodies of the entry points are not modelled: they are universally quantified strategies over the primitive events "
+    "(for the ProdParser.parse engine the event discipline is proved by coq/props/PP.v: stash_events, stash_events_globals, "
+    "pparse_stash_discipline)",
     "harness/props/c06.py: history generator, run-time tracing of prodparser.savedTokens / tokenizer / ProdParser.__init__ / "
     "setSerializer / resolveImports (runtime wrappers, no source hooks), canary fingerprints",
     "CPython 3.12 fork semantics for the pristine reference (cross-checked against a fresh interpreter once per run)",
